@@ -33,7 +33,15 @@ class C16Engine(C09.C09Engine):
         pre = None
         self.precondition_failed = False
         db1 = world.handles("db")[0]
-        if via == "parse":
+        if world.m[db1].get("blank_parse"):
+            from pydbml import PyDBML
+            d0 = world.m[db1]
+            rk0 = {"sql_renderer": env.renderers["sql"][d0["sqlr"]], "dbml_renderer": env.renderers["dbml"][d0["dbmlr"]]}
+            try:
+                pre = {db1: PyDBML(d0["blank_parse"], allow_properties=d0["allow_properties"], **rk0)}
+            except Exception:
+                self.precondition_failed = True
+        elif via == "parse":
             sub = World()
             d = world.m[db1]
             keep = {db1}
@@ -86,7 +94,7 @@ class C16Engine(C09.C09Engine):
         if fl == "default":
             cls = self.env.renderers[lang]["default"]
             return self._call(lambda: cls.render(o))
-        types = TAGGED_TYPES_FULL if fl == "tag" else TAGGED_TYPES_PARTIAL
+        types = TAGGED_TYPES_FULL if fl in ("tag", "nodb") else TAGGED_TYPES_PARTIAL
         if fl == "sub" and lang == "sql":
             # the default SQL renderer checks required attributes before dispatching, subclasses inherit that
             try:
@@ -232,7 +240,8 @@ class C16Engine(C09.C09Engine):
 # ---------------------------------------------------------------------- generation
 
 CONFIGS = [("default", "default"), ("tag", "tag"), ("partial", "partial"), ("default", "tag"), ("partial", "default"),
-           ("tag", "partial"), ("sub", "sub"), ("sub", "default"), ("default", "sub")]
+           ("tag", "partial"), ("sub", "sub"), ("sub", "default"), ("default", "sub"), ("nodb", "nodb"), ("nodb", "tag"),
+           ("default", "nodb")]
 
 
 def gen_world(rng: random.Random, via: str) -> World:
@@ -243,6 +252,17 @@ def gen_world(rng: random.Random, via: str) -> World:
         cfgs[0] = ("default", "default")
     w.m[db1]["sqlr"], w.m[db1]["dbmlr"] = cfgs[0]
     w.m[db1]["source_style"] = rng.choice(["str", "str", "path", "file"])
+    if rng.random() < 0.12:
+        # db1 is what the parser returns for a document without any element; its former content becomes loose
+        d1 = w.m[db1]
+        for f in ("tables", "refs", "enums", "groups", "notes"):
+            for h in d1[f]:
+                w.m[h]["db"] = None
+            d1[f] = []
+        if d1["project"]:
+            w.m[d1["project"]]["db"] = None
+            d1["project"] = None
+        d1["blank_parse"] = rng.choice(["", "\n\n", "  \n\t\n", "// only a comment\n"])
     for c in cfgs[1:]:
         h = w.db(sqlr=c[0], dbmlr=c[1])
         w.m[h]["positional"] = rng.random() < 0.5
